@@ -156,7 +156,12 @@ def compare_decoded(beh, msg, what='decode'):
             if labs[k] != lab:
                 return ((what, 'label', lab[0] if not lab[0].isdigit() else 'plain', feature_of(e)),
                         'subset %d index %d: label %s, specification %s' % (i, k, labs[k], lab))
-            if not impl_matches(vals[k], sv):
+            ok = impl_matches(vals[k], sv)
+            if not ok and what == 'corpus-encode' and sv[0] == 'str' and isinstance(vals[k], bytes):
+                # the value decoded from a foreign message whose compressed column carries the string in fewer octets than
+                # the element has; the encoder pads it with blanks to the field width (C02 says so)
+                ok = len(vals[k]) <= len(sv[1]) and vals[k].ljust(len(sv[1])) == sv[1]
+            if not ok:
                 return ((what, 'value', sv[0], feature_of(e)),
                         'subset %d index %d (%s): value %r, specification %r (width %d scale %d)' % (
                             i, k, lab, vals[k], sv, e['w'], e['sc']))
@@ -223,8 +228,23 @@ def replay_encode(beh, encoder=None, canonical=True):
 # ---------------------------------------------------------------------------------------------
 # consume form: the specification itself parses octets produced by the real encoder
 
-def consume_run(wd, name, messages, mversion=33, local=None, workers=16, timeout=3000, dirs=None):
-    """messages: list of bytes.  Returns {tid (1-based): behaviour}."""
+def consume_run(wd, name, messages, mversion=33, local=None, workers=16, timeout=3000, dirs=None, chunk=12000):
+    """messages: list of bytes.  Returns {tid (1-based): behaviour}.  Long lists are parsed in several TLC runs (the
+    messages are one literal constant of the model); the first run's result object carries the summed statistics."""
+    if len(messages) > chunk:
+        first, out = None, {}
+        for k in range(0, len(messages), chunk):
+            res, part = consume_run(wd, '%s_p%d' % (name, k // chunk), messages[k:k + chunk], mversion=mversion, local=local, workers=workers,
+                                    timeout=timeout, dirs=dirs, chunk=chunk)
+            for tid, b in part.items():
+                out[tid + k] = b
+            if first is None:
+                first = res
+            else:
+                first.generated += res.generated
+                first.distinct += res.distinct
+                first.wall += res.wall
+        return first, out
     consts = base_consts(Cases='<<' + ', '.join('[msg |-> %s]' % tlc.tla_val(list(m)) for m in messages) + '>>',
                          Mode='"consume"', dirs=dirs or table_dirs(mversion, local), mversion=mversion, local=local)
     text = tlc.mc_module(name, ['FM94Gen'], consts)
